@@ -88,3 +88,45 @@ _reg0 = register
 def register(R):
     _reg0(R)
     register_get(R)
+
+
+def register_wrappers(R):
+    """__rich_measure__ of the framing renderables (C09): whatever the child reports, the wrapper's own report is ordered and
+    never exceeds the width it was offered (Measurement.get's contract is all that is known about the child)."""
+    R.record("PaddingM", [("renderable", "opaque:Renderable"), ("top", "int"), ("right", "int"), ("bottom", "int"), ("left", "int")],
+             pyclass="rich.padding.Padding")
+    R.contract(
+        "rich.padding", "Padding.__rich_measure__", serves=["C09"],
+        params={"self": "PaddingM", "console": "Console", "max_width": "int"}, returns="Measurement",
+        raises={"Exception": "*"},
+        ensures=["result.minimum <= result.maximum", "result.maximum <= max_width",
+                 # with room for the child, the report is the child's report plus the horizontal padding, clipped
+                 "implies(max_width - (self.left + self.right) >= 1 and self.left + self.right >= 0, result.minimum >= min(self.left + self.right, max_width))"],
+        native=False,
+    )
+    R.record("ConstrainM", [("renderable", "opaque:Renderable"), ("width", "Optional[int]")], pyclass="rich.constrain.Constrain")
+    R.contract(
+        "rich.constrain", "Constrain.__rich_measure__", serves=["C09"],
+        params={"self": "ConstrainM", "console": "Console", "max_width": "int"}, returns="Measurement",
+        raises={"Exception": "*"},
+        ensures=["0 <= result.minimum <= result.maximum", "result.maximum <= max(max_width, 0)",
+                 "implies(self.width is not None, result.maximum <= max(self.width, 0))"],
+        native=False,
+    )
+    for mod, cls, rec in (("rich.align", "Align", "AlignM"), ("rich.align", "VerticalCenter", "VCenterM"), ("rich.styled", "Styled", "StyledM")):
+        R.record(rec, [("renderable", "opaque:Renderable")], pyclass=f"{mod}.{cls}")
+        R.contract(
+            mod, f"{cls}.__rich_measure__", serves=["C09"],
+            params={"self": rec, "console": "Console", "max_width": "int"}, returns="Measurement",
+            raises={"Exception": "*"},
+            ensures=["0 <= result.minimum <= result.maximum", "result.maximum <= max(max_width, 0)"],
+            native=False,
+        )
+
+
+_reg1 = register
+
+
+def register(R):
+    _reg1(R)
+    register_wrappers(R)
